@@ -41,15 +41,15 @@ type vfFilter struct {
 }
 
 type vfFdOut struct {
-	ID     string          `json:"id"`
-	S      string          `json:"s"`
-	Swap   bool            `json:"swap"`
-	Rule   json.RawMessage `json:"rule"`
-	HasRule bool           `json:"hasrule"`
-	Parsed vfFilter        `json:"parsed"`
-	Packed vfFilter        `json:"packed"`
-	Agree  bool            `json:"agree"` // the independent walker and go-gtp5gnl's DecodeFlowDesc agree
-	Panic  string          `json:"panic"`
+	ID      string          `json:"id"`
+	S       string          `json:"s"`
+	Swap    bool            `json:"swap"`
+	Rule    json.RawMessage `json:"rule"`
+	HasRule bool            `json:"hasrule"`
+	Parsed  vfFilter        `json:"parsed"`
+	Packed  vfFilter        `json:"packed"`
+	Agree   bool            `json:"agree"` // the independent walker and go-gtp5gnl's DecodeFlowDesc agree
+	Panic   string          `json:"panic"`
 }
 
 func vfInts(b []byte) []int {
